@@ -63,11 +63,13 @@ func (self ValueString) Fields() (map[string]*Value, *Interrupt) {
 		"substring": NewValueBuiltinFunction(func(executor Executor, cancelCtx *context.Context, span errors.Span, args ...Value) (*Value, *Interrupt) {
 			upper := args[0].(ValueInt).Inner
 
-			if upper < 0 || upper > int64(len(self.Inner)) {
+			// the first `upper` characters (not bytes)
+			chars := []rune(self.Inner)
+			if upper < 0 || upper > int64(len(chars)) {
 				return nil, NewThrowInterrupt(span, "index out of range")
 			}
 
-			sub := self.Inner[0:upper]
+			sub := string(chars[0:upper])
 			return NewValueString(sub), nil
 		}),
 		"to_lower": NewValueBuiltinFunction(func(executor Executor, cancelCtx *context.Context, span errors.Span, args ...Value) (*Value, *Interrupt) {
